@@ -71,6 +71,10 @@ func VerifProgStore() {
 var verifAllocOps = []int{opAlloc, opAllocRaw, opAllocN, opFree, opFreeNew, opOverwrite, opFlush, opCheckpoint}
 
 func verifCfgVariant(cfg *progCfg) {
+	if verifParam("opset", 0) == 1 {
+		// allocation / free only (longer transactions stay affordable)
+		cfg.ops = []int{opAllocRaw, opAllocN, opFreeNew, opFree}
+	}
 	switch verifParam("variant", 0) {
 	case 1:
 		cfg.metaArea = 4
